@@ -23,6 +23,8 @@ import (
 // C13 — Exchange.Get/GetByHeight return only validated, correctly bound headers.
 
 type C13Scenario struct {
+	// Metrics: the Exchange is built WithMetrics (a configuration that must not change any result)
+	Metrics   bool        `json:"metrics,omitempty"`
 	Method    string      `json:"method"` // get | get_by_height
 	Height    uint64      `json:"height"`
 	Peers     []Behaviour `json:"peers"`
@@ -50,6 +52,7 @@ func genC13(t *rapid.T) C13Scenario {
 			K:       rapid.IntRange(1, 3).Draw(t, "k"),
 		})
 	}
+	s.Metrics = rapid.IntRange(0, 3).Draw(t, "metrics") == 0
 	return s
 }
 
@@ -64,6 +67,8 @@ func c13SendsWellFormed(kind string) bool {
 func c13Exact(kind string) bool { return kind == bhCorrect || kind == bhSeveral }
 
 func runC13(t *testing.T, s C13Scenario) (res Result) {
+	exchangeMetrics = s.Metrics
+	defer func() { exchangeMetrics = false }()
 	bubble(t, func() {
 		const chainID = "c13"
 		chain := vh.ChainSpec{ChainID: chainID, N: 40, StartMs: -100_000}.Build()
